@@ -368,6 +368,26 @@ static int run_objects(Rng& rng) {
                 y = x; report("CSR", "copy-assign-same-nnz-more-rows", csr_eq(y, xr), "FAIL");
             }
 
+            // same shape (rows, nnz / size) but different content: nothing is re-allocated, everything must still be copied
+            {
+                std::vector<std::tuple<int, int, double>> t1{{0, 0, 4.0}, {0, 2, 1.0}, {1, 1, 5.0}, {2, 0, 2.0}, {2, 2, 6.0}},
+                                                          t2{{0, 0, 7.0}, {1, 0, 1.5}, {1, 1, 8.0}, {1, 2, 2.5}, {2, 2, 9.0}};
+                SparseMatrixCSR<double> x(3, 3, t1), y(3, 3, t2), xr(3, 3, t1);
+                y = x; report("CSR", "copy-assign-same-shape-other-pattern", csr_eq(y, xr) && csr_eq(x, xr), "FAIL");
+                SparseMatrixCSR<double> z(3, 3, t2); z = std::move(x); report("CSR", "move-assign-same-shape-other-pattern", csr_eq(z, xr), "FAIL");
+                SparseMatrixCOO<double> cx(3, 3, t1), cy(3, 3, t2), cxr(3, 3, t1);
+                cy = cx; report("COO", "copy-assign-same-shape-other-pattern", coo_eq(cy, cxr) && coo_eq(cx, cxr), "FAIL");
+                SparseMatrixCOO<double> cz(3, 3, t2); cz = std::move(cx); report("COO", "move-assign-same-shape-other-pattern", coo_eq(cz, cxr), "FAIL");
+                Vector<double> vx(5), vy(5), vr(5);
+                for (int i = 0; i < 5; i++) { vx[i] = 1.5 * i - 2; vr[i] = vx[i]; vy[i] = 100 + i; }
+                vy = vx; bool veq = true; for (int i = 0; i < 5; i++) veq = veq && vy[i] == vr[i] && vx[i] == vr[i];
+                report("Vector", "copy-assign-same-size-other-content", veq, "FAIL");
+                SparseLUSolver<double> sx(xr), sy(SparseMatrixCSR<double>(3, 3, t2));
+                std::vector<double> bb{1.0, 2.0, 3.0}, b1 = bb, b2 = bb;
+                sx.solveInPlace(b1.data()); sy = sx; sy.solveInPlace(b2.data());
+                report("LU", "copy-assign-over-live-solver", b1 == b2, "FAIL");
+            }
+
             std::vector<double> rhs(n); for (auto& v : rhs) v = rng.nice(-4, 4);
             SparseLUSolver<double> la(ra), lb(rb);
             auto solve = [&](const SparseLUSolver<double>& s) { std::vector<double> x = rhs; s.solveInPlace(x.data()); return x; };
